@@ -295,10 +295,13 @@ SingleValuedOKF(ls, fl, prog, side) ==
         te   == Canon(NTransferEncoding)
         co   == Canon(NConnection)
         conn == {i \in DOMAIN ls : fl[i].nm = co}
+        \* SetContentLengthBytes is parser plumbing like the raw argument API: it stores the text of the field and
+        \* leaves the framing decision alone, so the two-framings clause is not judged for programs using it
+        rawcl == \E i \in DOMAIN prog : prog[i].e \in {"ReqHeader.SetContentLengthBytes", "RespHeader.SetContentLengthBytes"}
         nclose == Cardinality({i \in conn : BClose \in Tokens(fl[i].val)})
         nkeep  == Cardinality({i \in conn : BKeepAlive \in Tokens(fl[i].val)})
     IN /\ \A u \in UniqueNames(side) : Canon(u) \in raw \/ N(Canon(u)) <= 1
-       /\ (cl \in raw \/ te \in raw \/ ~(N(cl) >= 1 /\ N(te) >= 1))
+       /\ (cl \in raw \/ te \in raw \/ rawcl \/ ~(N(cl) >= 1 /\ N(te) >= 1))
        /\ (co \in raw \/ (nclose <= 1 /\ ~(nclose >= 1 /\ nkeep >= 1)))
 
 \* the header block of a message: line obligations + single-valued fields, each line parsed once
